@@ -115,7 +115,7 @@ PROPS = {
         rule=("for each rapid-drawn populated state (2-4 messages, ordering on/off, keys, acked/leased/dead-letter-due deliveries, 0-2 dead-letter subscriptions incl. filtered, a snapshot, "
               "deleted and expired resources) and each of 31 mutating operations (publish 1/3, create/delete/update topic and subscription, push config, ack, modack +/0, pull, pull that "
               "dead-letters, stream ack+nack, stream nack that dead-letters, stream modify-deadline, seek to time (rewind / forward) and to snapshot, create/delete snapshot, dead-letter sweep, "
-              "7 prune/expire jobs): the operation is run fault-free under a counting database driver, then once per event index k (BEGIN, every statement, COMMIT) with that event failing, "
+              "7 prune/expire jobs, each run through the production prune service's own runOnce - begin, execute, commit-or-rollback - on ONE service instance that is reused for every run, as the real service reuses its action): the operation is run fault-free under a counting database driver, then once per event index k (BEGIN, every statement, COMMIT) with that event failing, "
               "once with the request cancelled just before it, once with the request cancelled right after it completed (statements only; database/sql then rolls the transaction back on its own, so the next statement or the COMMIT meets a transaction that is gone - the report must still agree with what was stored), and - for the handlers wrapped in the deadlock-retry loop - once with a synthetic deadlock error at k; oracle: error reported, "
               "full dump of the five tables unchanged, no waiter notified, retry from the same clock/UUID state reproduces the fault-free dump byte for byte (deadlock: request succeeds with "
               "that same dump); non-trivial = the faulted event is a write or the commit and follows an earlier write in the same transaction; distinct by (state, operation, k, mode)"),
@@ -188,7 +188,7 @@ PROPS = {
         rule=("(1) notifier layer: generated sets of waiters on 1-4 subscriptions and one notification naming 1-5 subscription ids in any order (ids without waiters, repeats): exactly the waiters of the "
               "named subscriptions are woken; (2) schedules: 1-2 waiting pulls (the real action with a 40 s timeout, or a StreamingPull-style streamer) on 1-3 subscriptions and one writer drawn from "
               "{publish to a topic with several subscriptions, zero-deadline ModifyAckDeadline of ids spanning subscriptions in every order, ack of an ordered predecessor, stream nack that "
-              "dead-letters an ordered predecessor, dead-letter forward into the waiter's topic by nack and by the sweep, seek backwards}; a wrapping database driver parks each waiter at a "
+              "dead-letters an ordered predecessor, dead-letter forward into the waiter's topic by nack and by the sweep, seek backwards, a seek to a time / to a sibling's snapshot that revives nothing and only acknowledges the leased predecessor of a held-back same-key message}; a wrapping database driver parks each waiter at a "
               "generated transaction boundary - before its first transaction, between its transactions, before its query, after the commit of its empty query but before it waits, or already "
               "waiting - while the writer runs to completion; oracle: every waiter returns the message within 2 s of the writer's commit (a miss must reproduce 3 times out of 3 from the same "
               "schedule); stress pairs (TestC10Stress: 150, thorough 600): a blocking Pull and a Publish issued 0-3 ms apart in either order with no schedule control - the pull must come back with the message; still waiting 3.5 s after the publish returned while the message sits unattempted in the subscription = lost wake-up (low power for microsecond windows, which the scheduler placements cover; it is there for start-up and registration races); non-trivial = the writer commits inside the check-to-wait window, or one request touches >=2 subscriptions; distinct by hash of the schedule"),
@@ -201,7 +201,7 @@ PROPS = {
         run="^(TestC11|TestC11StartupRace|TestC11MultiStream)$",
         level="exploration",
         rule=("scripts against the real MessageStreamer - two in three through a scripted StreamConnection, one in three through the real StreamingPull RPC over gRPC (limits in the initial request, acks in ack_ids, nacks as modify-deadline 0, and a `mixed` step that puts deadline 0 for some ack ids and 30 s for others into ONE request): flow-control limits (max messages 1,2,3,5,1000; max bytes below / at / above the payload sizes 12, 200, 5000), "
-              "1-8 initial messages of mixed sizes, then 2-9 steps drawn from {stream ack, stream nack, gRPC-style nack (modify-deadline 0), Acknowledge outside the stream (one call, one call per id back to back, or concurrent calls), "
+              "1-8 initial messages of mixed sizes, then 2-9 steps drawn from {stream ack, stream nack, gRPC-style nack (modify-deadline 0), over gRPC also a `mixed` request carrying a zero-deadline group and a 30 s group in either order (drawn), Acknowledge outside the stream (one call, one call per id back to back, or concurrent calls), "
               "`extack-window`: two outside Acknowledge calls of which the second is placed by the gate scheduler while a goroutine of the stream is held right after a query it made outside a transaction, publish more, wait}; multi-stream runs (TestC11MultiStream, one case in 4, real clock and real concurrency): 2-3 real StreamingPull streams on ONE subscription with limits 1/2/3/10, clients that hold a message 0-5 ms and answer on the stream or with outside Acknowledge calls, a publisher publishing 10-60 messages in batches meanwhile - every stream keeps to its own limit at every moment, every message reaches exactly one stream exactly once, and all arrive within a bound derived from the limits and hold times (3-of-3); start-up scripts (TestC11StartupRace: 40, thorough 150 runs of the minimal script \"limit 1 message, two messages, the first acknowledged outside the stream from inside its send call\" with the process kept busy by 2 x NumCPU spinning goroutines, no-send bound 6 s); in a quarter of the scripted-connection scripts the client answers the first 1-3 deliveries from inside the send call (stream ack or outside Acknowledge, then the send call is held 40 ms) so that the answer is digested before the send returns; "
               "oracle: at every Send/SendBatch the messages outstanding from the client's point of view stay within max messages and max bytes (except a single oversized message sent on an empty "
               "window), no delivery is sent twice while outstanding, and whenever the client-side window has room for a deliverable message that fits, a send happens within 2 s (messages made deliverable by one request share a retry time, their fetch order is undefined and only a send that is owed under every order is demanded; a stall must "
@@ -212,7 +212,7 @@ PROPS = {
         thorough=dict(checks=500, shards=8, timeout=3000),
     ),
     "C19": dict(
-        run="^(TestC19|TestC19Lifecycle)$",
+        run="^(TestC19|TestC19Lifecycle|TestC19Adapter)$",
         level="exploration",
         rule=("scripts for a scripted HTTP endpoint (an http.RoundTripper, no sockets): 1-12 (thorough: 30) messages with JSON payloads / attribute maps / ordering keys as in C02, each with a planned "
               "sequence of replies per push - 0-2 failures drawn from every non-success status 100-599 and transport errors (quick: a seed-dependent seventh of 200-599 plus the neighbours of the "
@@ -223,7 +223,7 @@ PROPS = {
               "successes so far); non-trivial = a message failed at least once before succeeding and the window grew beyond 1; distinct by hash of the script. Lifecycle scripts (TestC19Lifecycle, same case count): the push "
               "manager service runs while 3-12 generated operations create subscriptions in push or pull mode (3 endpoints), switch endpoint or mode with ModifyPushConfig / UpdateSubscription(push_config), "
               "delete and re-create them, and publish; endpoints answer 204 only at the URL the subscription is configured with at that moment (503 elsewhere, so a push racing a change is retried); "
-              "oracle: after every publish each live push subscription receives the message at its CURRENT endpoint within 4 s (3-of-3); non-trivial there = a publish after an endpoint switch"),
+              "oracle: after every publish each live push subscription receives the message at its CURRENT endpoint within 4 s (3-of-3); non-trivial there = a publish after an endpoint switch. Adapter sequences (TestC19Adapter, same case count, 20-400 steps each, no clock and no HTTP): outcomes of POSTs - fast success, slow success, failure - are queued directly into the pusher's stream adapter (at most 10 per kind, the production queue size) interleaved with Receive calls; oracle: whatever batching Receive chooses, a success is reported as an ack and only as an ack, a failure as a nack and only as a nack, each exactly once, nothing invented or lost, the window stays within 1..1000 and equals the announced one; non-trivial there = a Receive with a failure and another kind of outcome queued at the same moment"),
         assumptions=["real clock (the pusher's fast/slow threshold and the HTTP round trip are wall-clock); retry policy 400-500 ms (the lease must comfortably exceed the latency of the ack transaction, or a slow ack legitimately leads to a second push)", "bounded waits with 3-of-3 confirmation for the 'pushed again' / 'pushed at all' clauses"],
         quick=dict(checks=30, timeout=900, shrinktime="120s"),
         thorough=dict(checks=120, shards=8, timeout=3000, shrinktime="120s"),
